@@ -50,6 +50,20 @@ CHECKS = {
          "the implementation: partition of the training rows before/after the edit, labels vs transform (C04 judge), JSON round trip and summary (C06 checks).",
     ref="DESIGN.md section 8 C17", technique="Lean 4 proof (invariant over edit histories) + model/code correspondence after every edit",
     note=BASE_NOTE + " 'replace' is generated for qualitative features with fresh names only; moving already-merged missing values is rejected by the code with AssertionError and not generated."),
+ "C01": dict(
+    text="Lean theorems: consecutive_combinations enumerates exactly the order-contiguous groupings into 2..max_n_mod groups (for every order length and max_n_mod), "
+         "nan_combinations exactly the placements of the missing-value modality, and 'sort by measure, first viable wins' returns a viable candidate that no certainly-viable "
+         "candidate beats / returns nothing iff nothing is viable / lets the ValueError escape iff a measure raises. The model of the whole two-stage search (exact rational "
+         "surrogates of Cramer's V, Tschuprow's T, Kruskal-Wallis H; viability on train and dev) is run on the base modalities of a real Discretizer and must accept the "
+         "real carver's outcome (kept grouping / dropped / exception) for every feature of every generated case.",
+    ref="DESIGN.md section 8 C01", technique="Lean 4 proof (enumerator soundness+completeness, arg-max over viable candidates) + model/code correspondence of the search",
+    note=BASE_NOTE + " scipy's doubles are compared with exact surrogates up to 1e-9 relative; exact rate ties in the train/dev rank test are accepted either way (numpy's sort is not stable)."),
+ "C02": dict(
+    text="Lean theorems (corollaries of C01's search): every acceptable winner has between 2 and max_n_mod groups (missing-value group included in stage 2), every group "
+         "reaches min_freq_mod on the table the search ran on, and on a dev sample the frequency, distinct-rate and rank conditions hold. The property itself is judged on the "
+         "implementation's transform output alone (label counts and exact shares on train and dev, missing outputs, label sets, rate ranking), and the same cases go through the Lean model of the search.",
+    ref="DESIGN.md section 8 C02", technique="Lean 4 proof (corollaries of the search theorems) + direct judgement of transform output + model/code correspondence",
+    note=BASE_NOTE + " Rate ties in the ranking are counted as ambiguous, not as violations."),
 }
 NOT_YET = "check not built yet (construction in progress, see DESIGN.md section 13); will be claimed once its model, theorems and correspondence exist"
 
